@@ -1,5 +1,5 @@
 (* Props_C08.v — C08: notifications faithfully mirror membership and connection state. *)
-From Foca Require Import Laws L_Lists MembersM L_Members L_MembersInv FocaM Inv Reach L_Mirror L_ConnCons Concrete ConcreteLaws.
+From Foca Require Import Laws L_Lists MembersM L_Members L_MembersInv FocaM Inv Reach L_Mirror L_ConnCons L_Defunct Concrete ConcreteLaws.
 From Coq Require Import Permutation.
 
 Section C08.
@@ -105,6 +105,18 @@ Theorem C08_history_consistent (id0 : Id) (c0 : config) (h0 : hstate) (f : @foca
   ghist id0 c0 h0 f -> conn f = Connected -> 0 < num_active (mems f).
 Proof. exact (fun H => proj2 (ghist_cc id0 c0 h0 f H)). Qed.
 
+(* after Defunct no Active until the identity changes: along every call other than change_identity /
+   reuse_down_identity (not aborted by Encode or a panic) a defunct instance notifies no Active and stays
+   defunct, unless that very call notifies Rejoin *)
+Theorem C08_no_active_while_defunct (rnd : oracle) (f : @foca Id Addr HO) (i : @input Id) :
+  match i with IChangeIdentity _ | IReuseDown => False | _ => True end ->
+  conn f = Undead ->
+  let '(f', es, r, _) := step rnd f i in
+  match r with Failed EEncode => True | Panicked _ => True | _ =>
+    (conn f' = Undead /\ existsb is_active_note es = false) \/ rejoined es
+  end.
+Proof. exact (step_defunct_stays rnd f i). Qed.
+
 End C08.
 
 (* AccumulatingRuntime (runtime.rs): three FIFO queues; draining each yields the effects of
@@ -155,6 +167,7 @@ Example C08_example_history :
   /\ replay (snd ex_run) [] = Some [] /\ active_ids (inner (mems (fst ex_run))) = [].
 Proof. vm_compute. auto. Qed.
 
+Print Assumptions C08_no_active_while_defunct.
 Print Assumptions C08_machine_notified_moves.
 Print Assumptions C08_machine_silent_moves.
 Print Assumptions C08_call_mirrors.
